@@ -25,7 +25,10 @@ theorem st_sessionStart (c : Conn) : (sessionStart c).state = c.state := by
   unfold sessionStart; dsimp only; rw [st_sendStanza, st_addTimed, st_addIdHandler]
 theorem st_smEnable (c : Conn) : (smEnable c).state = c.state := by
   unfold smEnable triggerSmCallback; dsimp only; rw [st_sendStanza, st_addHandler]
-theorem st_negotiationSuccess (c : Conn) : (negotiationSuccess c).state = c.state := rfl
+theorem st_negotiationSuccess (c : Conn) : (negotiationSuccess c).state = c.state := by
+  unfold negotiationSuccess; dsimp only; split
+  · rw [st_sendStanza]; rfl
+  · rfl
 
 theorem st_hbResult (c : Conn) (st : XTree) : (hbResult c st).state = c.state := by
   unfold hbResult; dsimp only
@@ -35,7 +38,7 @@ theorem st_hbResult (c : Conn) (st : XTree) : (hbResult c st).state = c.state :=
   · rw [st_sessionStart]
   · split
     · rw [st_smEnable]
-    · rfl
+    · rw [st_negotiationSuccess]
 
 theorem st_handleBind (c : Conn) (st : XTree) : (handleBind c st).state = c.state := by
   rw [handleBind_eq]; dsimp only
@@ -55,7 +58,7 @@ theorem st_handleSession (c : Conn) (st : XTree) : (handleSession c st).state = 
     · split
       · split
         · rw [st_smEnable]; rfl
-        · rfl
+        · rw [st_negotiationSuccess]; rfl
       · rw [st_xmppDisconnect]; rfl
   · rw [st_xmppDisconnect]; rfl
 
@@ -68,7 +71,7 @@ theorem st_handleLegacy (c : Conn) (st : XTree) : (handleLegacy c st).state = c.
     · split
       · rw [st_xmppDisconnect]; rfl
       · split
-        · rfl
+        · rw [st_negotiationSuccess]; rfl
         · rw [st_xmppDisconnect]; rfl
 
 /-! ### one visit of the handler loops -/
